@@ -1130,7 +1130,7 @@ pub fn work(tier: &str) -> Work {
     } else {
         let enum_corpus: Vec<usize> = (0..corpus.len()).collect();
         let edit_footers = footers.clone();
-        Work { corpus, enum_corpus, n_enum_synth: 5_000, n_sequences: 2_000_000, n_footers: 1_000_000, edit_footers, footers, thorough: true }
+        Work { corpus, enum_corpus, n_enum_synth: 20_000, n_sequences: 10_000_000, n_footers: 5_000_000, edit_footers, footers, thorough: true }
     }
 }
 
